@@ -7,7 +7,7 @@ from fractions import Fraction
 
 import z3
 
-from .expr import (AND, NOT, OR, VEnumerate, VEnumSym, VVec, VZip, conc_bool, is_bool, is_int, is_real, is_str, I)
+from .expr import (AND, NOT, OR, VChoice, VEnumerate, VEnumSym, VVec, VZip, conc_bool, is_bool, is_int, is_real, is_str, I)
 from .values import (Unsupported, VConc, VDict, VFilter, VFunc, VList, VOpt, VRange, VRec, VRef, VSet, VTuple, fresh,
                      is_conc, is_leaf, ite_tree, key_sorts, key_terms, sel, shape_of, sto, tmap, to_z3, tzip, uid)
 
@@ -356,6 +356,16 @@ class CallMixin:
                 return self.conc_dict_get(obj, args[0], args[1] if len(args) > 1 else None, node)
             attr = getattr(obj, name)
             return self.call_value(self.from_py(attr) if not callable(attr) else VConc(attr), args, kwargs, node, st)
+        if isinstance(recv, VChoice):
+            # a guarded choice between concrete objects: the same call on each alternative, each under its condition
+            self.guard.append(to_z3(recv.c))
+            try:
+                ra = self.call_method(recv.a, name, args, kwargs, node, st, recv_node)
+                self.guard[-1] = NOT(recv.c)
+                rb = self.call_method(recv.b, name, args, kwargs, node, st, recv_node)
+            finally:
+                self.guard.pop()
+            return self.merge(recv.c, ra, rb)
         if isinstance(recv, VList):
             return self.list_method(recv, name, args, node, st, recv_node)
         if isinstance(recv, VDict):
@@ -370,6 +380,18 @@ class CallMixin:
         if recv is None:
             self.may_raise(True, "AttributeError", node)
             return None
+        if isinstance(recv, VFunc) and recv.kind == "builtin" and recv.payload == "dict" and name == "fromkeys" and len(args) == 1 and not kwargs:
+            # dict.fromkeys(xs) == {x: None for x in xs}: the keys of xs in first-occurrence order, every value None
+            # (evaluated as that dict comprehension over the already evaluated argument)
+            tmp = "fromkeys!it"
+            comp = ast.DictComp(key=ast.Name(id="fromkeys!k", ctx=ast.Load()), value=ast.Constant(value=None),
+                                generators=[ast.comprehension(target=ast.Name(id="fromkeys!k", ctx=ast.Store()),
+                                                              iter=ast.Name(id=tmp, ctx=ast.Load()), ifs=[], is_async=0)])
+            st.env[tmp] = args[0]
+            try:
+                return self.ev_DictComp(ast.copy_location(comp, node), st)
+            finally:
+                del st.env[tmp]
         raise Unsupported(f"method {name} on {type(recv).__name__} at line {node.lineno}")
 
     def list_method(self, L, name, args, node, st, recv_node):
@@ -912,6 +934,8 @@ class CallMixin:
         raise Unsupported("sorted")
 
     def bi_dict(self, args, kw, node, st):
+        if not args and not kw:
+            return VConc({})  # dict(): an empty dict (a constant: reads only - a store into it is rejected by assign_to)
         raise Unsupported("dict()")
 
     def bi_frozenset(self, args, kw, node, st):
